@@ -213,7 +213,9 @@ def first_draw_counts(binary, build, rng, specs, what):
         label, r, L, mk, parse = spec[:5]
         mk2 = spec[5] if len(spec) > 5 else None
         p = Prober(binary, mk, parse)
-        vals = sorted({0, 1, r - 1, r // 2, rng.below(r), rng.below(r)}) if r > 8 else list(range(r))
+        # exact rejection sampling gives EVERY value the same number of words: 40 values are counted (a defect that shortchanges a tenth of the
+        # values of a mid-sized range is then seen with probability 0.98)
+        vals = sorted({0, 1, r - 1, r // 2} | {rng.below(r) for _ in range(36)}) if r > 8 else list(range(r))
         msg, info = count_values(p, r, L, [v for v in vals if 0 <= v < r], rng, label)
         total += p.calls
         if msg == "inconclusive":
